@@ -8,9 +8,9 @@ git diff -- labtech > /tmp/seed_$ID.patch
 echo "patch lines: $(wc -l < /tmp/seed_$ID.patch)"
 (PYTHONPATH=$WT timeout 900 /venv/bin/python -m pytest -q -p no:cacheprovider --timeout=900 > /tmp/seed_$ID.tests 2>&1); echo "tests(with change): $(tail -1 /tmp/seed_$ID.tests)"
 (PYTHONPATH=$WT timeout 300 setsid /venv/bin/python demo.py > /tmp/seed_$ID.demo1 2>&1); echo "demo(with change) rc=$? $(grep -m1 -E 'PASS|FAIL' /tmp/seed_$ID.demo1 | cut -c1-150)"
-git stash -q -- labtech
+git checkout -q -- labtech
 (PYTHONPATH=$WT timeout 300 setsid /venv/bin/python demo.py > /tmp/seed_$ID.demo0 2>&1); echo "demo(without) rc=$? $(grep -m1 -E 'PASS|FAIL' /tmp/seed_$ID.demo0 | cut -c1-150)"
-git stash pop -q
+git apply /tmp/seed_$ID.patch
 cd /verif
 for p in $PROPS; do
   VLAB_REPO=$WT /venv/bin/python -m vlab.check $p --tier ${TIER:-quick} --no-evidence > /tmp/seed_${ID}_$p.out 2>&1; rc=$?
